@@ -29,6 +29,24 @@ pub(crate) fn any_gen_raw() -> MoveGen {
     MoveGen { moves, promotion_index: pi, iterator_mask: BitBoard(kani::any()), index: idx }
 }
 
+pub(crate) fn entry_parts(e: &SquareAndBitBoard) -> (u8, u64, bool) {
+    (e.square.to_int(), e.bitboard.0, e.promotion)
+}
+
+/// a freshly started generator as new_legal returns it; remembers its content for the calling harness
+pub(crate) static mut LAST_GEN: ([(u8, u64, bool); MAXN], usize) = ([(0, 0, false); MAXN], 0);
+pub(crate) fn fresh(g: &MoveGen) -> bool {
+    let ok = g.index == 0 && g.promotion_index == 0 && g.iterator_mask.0 == !0u64 && inv(g);
+    let s = snapshot(g);
+    unsafe {
+        LAST_GEN = (s.0, s.1);
+    }
+    ok
+}
+pub(crate) fn last_gen_snapshot() -> ([(u8, u64, bool); MAXN], usize) {
+    unsafe { LAST_GEN }
+}
+
 fn exhausted(g: &MoveGen, i: usize) -> bool {
     g.moves[i].bitboard.0 & g.iterator_mask.0 == 0
 }
@@ -233,3 +251,4 @@ fn c14_canary() {
         assert!(m.get_promotion().is_none());
     }
 }
+
